@@ -393,3 +393,60 @@ func treePreserves(md protoreflect.MessageDescriptor, seen map[protoreflect.Full
 	}
 	return true
 }
+
+// DrawField draws a value for one field (exported for generators that target given fields).
+func DrawField(t *rapid.T, fd protoreflect.FieldDescriptor, o MsgOpts) (model.Field, bool) {
+	return drawField(t, fd, o)
+}
+
+// DrawColliding draws a second message of md that shares populated fields with a: for each
+// field of a, with probability 1/2, b gets the same field with a fresh value (recursively for
+// singular message fields), on top of an independent small draw. At most one member per oneof.
+func DrawColliding(t *rapid.T, md protoreflect.MessageDescriptor, a *model.Msg, o MsgOpts) *model.Msg {
+	so := o
+	so.MaxFields = 2
+	b := DrawMessage(t, md, so)
+	if a == nil {
+		return b
+	}
+	for _, f := range a.Fields {
+		if !rapid.Bool().Draw(t, "collide") {
+			continue
+		}
+		fd := model.FieldDesc(md, f.Num, o.Resolver)
+		if fd == nil {
+			continue
+		}
+		var nf model.Field
+		ok := true
+		if fd.Message() != nil && !fd.IsList() && !fd.IsMap() && o.Depth > 0 {
+			do := o
+			do.Depth--
+			nf = model.Field{Num: f.Num, Vals: []model.Val{{M: DrawColliding(t, fd.Message(), f.Vals[0].M, do)}}}
+		} else if fd.IsMap() && rapid.Bool().Draw(t, "samekeys") {
+			// same keys, fresh values
+			nf = model.Field{Num: f.Num}
+			for _, k := range f.Keys {
+				v, vok := drawVal(t, fd.MapValue(), o)
+				if !vok {
+					ok = false
+					break
+				}
+				nf.Keys = append(nf.Keys, k)
+				nf.Vals = append(nf.Vals, v)
+			}
+		} else {
+			nf, ok = drawField(t, fd, o)
+		}
+		if !ok {
+			continue
+		}
+		if od := fd.ContainingOneof(); od != nil {
+			for i := 0; i < od.Fields().Len(); i++ {
+				b.Del(int32(od.Fields().Get(i).Number()))
+			}
+		}
+		b.Put(nf)
+	}
+	return b
+}
